@@ -13,6 +13,7 @@ import ShapeVerif.Props.C09b
 import ShapeVerif.Proofs.AffineGen
 import ShapeVerif.Proofs.TranslateGen
 import ShapeVerif.Proofs.RotateGen
+import ShapeVerif.Proofs.MomentMoveGen
 
 namespace ShapeVerif.C09
 open ShapeVerif
@@ -103,6 +104,16 @@ theorem area_rot_all (j : Jordan) (hj : ∀ s ∈ j, 2 ≤ s.length)
     (hchain : ∀ p ∈ j.zip (j.tail ++ j.take 1), p.1.getLastD Pt.zero = p.2.headD Pt.zero)
     (c sn : Rat) (h : c * c + sn * sn = 1) : Jordan.area (j.map (·.rot c sn)) = Jordan.area j :=
   area_rot_closed_all j hj hchain c sn h
+
+/-! ### the first moments (centroid) of a closed curve of any degree move with the shape -/
+
+theorem moment10_move_all (j : Jordan) (hj : ∀ s ∈ j, 2 ≤ s.length)
+    (hchain : ∀ p ∈ j.zip (j.tail ++ j.take 1), p.1.getLastD Pt.zero = p.2.headD Pt.zero) (d : Pt) :
+    Jordan.moment (j.map (·.move d)) 1 0 = Jordan.moment j 1 0 + d.x * Jordan.area j := moment10_move_closed j hj hchain d
+
+theorem moment01_move_all (j : Jordan) (hj : ∀ s ∈ j, 2 ≤ s.length)
+    (hchain : ∀ p ∈ j.zip (j.tail ++ j.take 1), p.1.getLastD Pt.zero = p.2.headD Pt.zero) (d : Pt) :
+    Jordan.moment (j.map (·.move d)) 0 1 = Jordan.moment j 0 1 + d.y * Jordan.area j := moment01_move_closed j hj hchain d
 
 /-! non-vacuity: a cubic moved, scaled and rotated (3-4-5) agrees with the moved / scaled / rotated point of the curve -/
 example : evalSeg (([⟨0,0⟩, ⟨1,2⟩, ⟨3,0⟩, ⟨4,1⟩] : Seg).map (·.rot (3/5) (4/5))) (1/3)
